@@ -123,7 +123,13 @@ SEV_HANDLER(ccode)
                             continue;
                         size_t q = ln.find("implicit declaration of function");
                         if (q == std::string::npos) {
-                            other = true;
+                            // (likewise a C99 <math.h> macro under the older dialect)
+                            if (ln.find("'NAN' undeclared") != std::string::npos
+                                || ln.find("'INFINITY' undeclared") != std::string::npos) {
+                                if (fn.empty())
+                                    fn = ln.find("'NAN'") != std::string::npos ? "NAN" : "INFINITY";
+                            } else
+                                other = true;
                             continue;
                         }
                         size_t a = ln.find_first_of("'`\xe2", q), b = std::string::npos;
